@@ -10,7 +10,7 @@ RULE = ("every generator (Poisson, fine-structure convolution, BRAIN) on a pool 
         "{proton, Na, electron-sized, 0}: the pattern at charge z is compared with the pattern at charge 0 of the "
         "same call (same length, bit-identical intensities, m/z = (m + z*carrier)/|z| to 1e-9 relative); "
         "neutral_mass(mass_charge_ratio(m)) = m on a grid; class = (generator, charge, carrier, length bucket)")
-MODULES = ["Props.C10"]
+MODULES = ["Props.C10", "Props.C13Float"]
 CARRIERS = [Fraction(1007276, 10 ** 6), Fraction(22989218, 10 ** 6), Fraction(549, 10 ** 6), Fraction(0)]
 FORMULAS = ["C6H12O6", "H2O", "C34H53O15N7", "C2H6S1", "Br2", "Cl2C1", "Fe2O3", "C60H120O60", "K3", "Si2Mg1O4",
             "S8", "Ca1Cl2", "C100H200N30O40S2"]
@@ -60,7 +60,10 @@ def run(r: Run):
             continue   # mass_charge_ratio itself is only defined for z != 0; generators guard it
         a, b = il.split("\t")
         ma, mb = ml.split("\t")
-        if not close(Fraction(a), Fraction(ma), rel=1e-12) or not close(Fraction(b), m, rel=1e-9, abs_=1e-9):
+        # Props/C13Float.lean, flNeutral_flMz_sharp: under the standard rounding model (u = 2^-53) the round trip
+        # returns m within 5u(|m| + |z*carrier|)
+        fbound = 5 * Fraction(1, 2 ** 53) * (abs(m) + abs(z * c))
+        if not close(Fraction(a), Fraction(ma), rel=1e-12) or abs(Fraction(b) - m) > fbound:
             corr_ok = False
             r.violation("neutral-inverts", {"z_sign": z > 0}, f"mass_charge_ratio/neutral_mass({float(m)}, {z}, {float(c)}) = {a}, {b}",
                         expected=ml, observed={"line": line, "mode": "poisson"})
